@@ -80,6 +80,10 @@ def jobs(tier):
         for k in ks[1:]:
             js.append(dict(name=f'H2:edfa:{var}:k{k}', module='harness.elems', fn='h_edfa',
                            params=dict(variety=var, k=k, props=P, oob=(k == 2)), cost=4 ** k))
+    # rebuilding a spectrum (band filter, demux/mux, addition) keeps every share exactly, however small
+    for via in ('init', 'add'):
+        js.append(dict(name=f'H2:rebuild_keeps_shares:{via}:k2', module='harness.c01', fn='h_construct_interleaved',
+                       params=dict(k=2, via=via), cost=10))
     for method in ('ggn_approx', 'ggn_spectrally_separated'):
         for comp in ((2, 3), (1, 4), (2,), (1, 2, 3, 4)):
             js.append(dict(name=f'H2:nli_sparse_computed_channels:{method}:{"+".join(map(str, comp))}', fn='h_nli_sparse',
